@@ -52,6 +52,7 @@ def generate(seed, tier="quick", prop=PROPERTY, logprobs=0.0, all_logprobs=0.1):
             op["lib"] = nan_lib
         op.update(p)
         op["kw"] = sampling.gen_rejection_kw(rnd, N, pname, logprobs=logprobs, all_logprobs=all_logprobs)
+        sampling.add_arg_types(rnd, op)
         ops.append(op)
     return {"format": 1, "property": prop, "seed": seed, "config": cfg, "ops": ops, "schedule": None, "faults": []}
 
